@@ -15,9 +15,10 @@
                  EFin      ... state == closed ? clear : asyncNotify(recvNotifyCh)          (391-397)
      peer close  PClose1 / PClose2     halfClose: CAS opened->halfClosed ; safeCloseNotify   (336-338)
      local close LLoad / LCas / LNotify / LClean   Stream.close: casToClosed (load state; CAS ->closed; a lost
-                                       CAS loads again: LRetry); safeCloseNotify if the old state was opened
-                                       or localHalfClosed; then asyncGoroutineWg.Wait() (blocks while an
-                                       OnData runs, SetCb = callbacks installed) and clean()
+                                       CAS loads again: LRetry); with callbacks installed (SetCb):
+                                       safeCloseNotify, asyncGoroutineWg.Wait() (blocks while an OnData
+                                       runs), clean(); without: clean(), safeCloseNotify
+                                       (notification only if the old state was opened or localHalfClosed)
                  LDefer1 / LDefer2   Stream.Close that finds an OnData callback in progress:
                            CAS opened->localHalfClosed (the close itself is deferred to the callback goroutine),
                            then - if the CAS succeeded - safeCloseNotify
@@ -171,7 +172,9 @@ Definition cb_busy (s : st) : bool :=
   cbmode s && match rd s with RIdle | RDone => false | _ => true end.
 
 (* nf ("notify first") = the order of Stream.close after winning casToClosed:
-     true  (the code): safeCloseNotify ; asyncGoroutineWg.Wait() ; clean()
+     true  (the code): with callbacks installed  safeCloseNotify ; asyncGoroutineWg.Wait() ; clean()  (the callback
+           goroutine is the only user of recvBuf and has exited when clean() runs); without callbacks
+           clean() ; safeCloseNotify  (a reader woken earlier would touch recvBuf while clean() recycles it)
      false (the order before the repair, kept for the regression example): Wait() ; clean() ; safeCloseNotify *)
 Definition step_gen (nf : bool) (s : st) (e : ev) : st :=
   match e with
@@ -245,27 +248,27 @@ Definition step_gen (nf : bool) (s : st) (e : ev) : st :=
     (* `if callbacks != nil { asyncGoroutineWg.Wait() }; clean()`: blocked while an OnData is running *)
     match lc s with
     | LCased old =>
-      if nf then s else if cb_busy s then s else
+      if nf && cbmode s then s          (* with callbacks the notification comes first *)
+      else if cb_busy s then s else
       {| pend := 0; rbuf := 0; token := token s; closeN := closeN s; ss := ss s; epc := epc s;
          ppc := ppc s; lc := LCleaned old; sclosing := sclosing s; dpc := dpc s; cbmode := cbmode s; now := now s; dl := dl s; tmr := tmr s;
          tch := tch s; ptick := ptick s; use_t := use_t s; armed := armed s; rd := rd s; minsz := minsz s; res := res s |}
     | LNotified old =>
-      if nf then (if cb_busy s then s else
+      if cb_busy s then s else
       {| pend := 0; rbuf := 0; token := token s; closeN := closeN s; ss := ss s; epc := epc s;
          ppc := ppc s; lc := LIdle; sclosing := sclosing s; dpc := dpc s; cbmode := cbmode s; now := now s; dl := dl s; tmr := tmr s;
-         tch := tch s; ptick := ptick s; use_t := use_t s; armed := armed s; rd := rd s; minsz := minsz s; res := res s |}) else s
+         tch := tch s; ptick := ptick s; use_t := use_t s; armed := armed s; rd := rd s; minsz := minsz s; res := res s |}
     | _ => s
     end
   | LNotify =>
     match lc s with
     | LCased old =>
-      if nf then
+      if nf && cbmode s then
       {| pend := pend s; rbuf := rbuf s; token := token s; closeN := closeN s || sst_eqb old SOpen || sst_eqb old SLocalHalf; ss := ss s; epc := epc s;
          ppc := ppc s; lc := LNotified old; sclosing := sclosing s; dpc := dpc s; cbmode := cbmode s; now := now s; dl := dl s; tmr := tmr s;
          tch := tch s; ptick := ptick s; use_t := use_t s; armed := armed s; rd := rd s; minsz := minsz s; res := res s |}
       else s
     | LCleaned old =>
-      if nf then s else
       {| pend := pend s; rbuf := rbuf s; token := token s; closeN := closeN s || sst_eqb old SOpen || sst_eqb old SLocalHalf; ss := ss s; epc := epc s;
          ppc := ppc s; lc := LIdle; sclosing := sclosing s; dpc := dpc s; cbmode := cbmode s; now := now s; dl := dl s; tmr := tmr s;
          tch := tch s; ptick := ptick s; use_t := use_t s; armed := armed s; rd := rd s; minsz := minsz s; res := res s |}
@@ -351,7 +354,7 @@ Definition wake_enabled (s : st) : bool := token s || closeN s || (use_t s && tc
 (* a helper thread is at the step that will make a branch ready *)
 Definition helper_pending (s : st) : bool :=
   epc s || ppc s || dpc s
-  || match lc s with LCased SOpen | LCased SLocalHalf => true | _ => false end
+  || match lc s with LCased SOpen | LCased SLocalHalf | LCleaned SOpen | LCleaned SLocalHalf => true | _ => false end
   || match tmr s with Some t => t <=? now s | None => false end.
 Definition is_reader_ev (e : ev) : bool := match e with RCall _ | RStep | RWake _ => true | _ => false end.
 
